@@ -111,3 +111,15 @@ Theorem C09_same_recovery_number_means_unchanged_list : forall (A : Type) ops (s
   nth j (fst (fold_left (plstep A) ops st)) d = nth j (fst st) d.
 Proof. exact same_epoch_unchanged_below. Qed.
 Print Assumptions C09_same_recovery_number_means_unchanged_list.
+
+(* why the loop of create_first_follow_sets ends with closed sets: one pass performs the unions the closure conditions
+   ask for and reports whether a set changed; after a pass that reports no change the tables satisfy those conditions.
+   (A pass whose report forgets one of its unions - the seeded changes to term_set_or and to the FOLLOW-from-FOLLOW
+   step - loses exactly this, and the closure check on the sets read from the implementation shows it.) *)
+Theorem C09_a_pass_without_change_leaves_closed_sets : forall NL g axiom FI FO,
+  snd (pass NL g (FI, FO)) = false ->
+  (forall r, In r g -> nl_form NL (rhs r) = true -> nl NL (lhs r) = true) ->
+  memo None (FO axiom) = true ->
+  closed_b g axiom NL FI FO = true.
+Proof. exact pass_without_change_means_closed. Qed.
+Print Assumptions C09_a_pass_without_change_leaves_closed_sets.
